@@ -161,7 +161,7 @@ def check_dfxp_read(case, rec):
 def sami_read_strategy(tier):
     @st.composite
     def build(draw):
-        langs = draw(multi_strategy())
+        langs = draw(multi_strategy(allow_prefix=True))
         via_attr = [draw(st.booleans()) and len(l["code"]) == 2 for l in langs]
         # paragraphs that name their language by attribute may carry a class as well - a pure
         # styling class or an undeclared one - written before or after the lang attribute
